@@ -370,10 +370,10 @@ def harnesses(tier):
                   outside=["masks wider / trees larger than the bound", "is_mutable waiver misuse"], classify=classify)
     hs = []
     hs.append(Harness("c01_encode", "C01", c01_encode,
-                      [dict(shape=v, shape2=[], nbits=((nbits if _leaves(v) <= 2 else 4) if q else (nbits if _leaves(v) <= 3 else _leaves(v) + 1)), ns_mode=m)
+                      [dict(shape=v, shape2=[], nbits=((nbits if _leaves(v) <= 2 else 4) if q else (nbits if _leaves(v) <= 2 else _leaves(v) + 1)), ns_mode=m)
                        for v in shapes for m in range(4)],
                       bounds=dict(shapes="every ordered shape with 2..%d nodes, 2..%d leaves (polytomies, stars, caterpillars; unifurcations up to %d nodes)" % (nmax, 4 if q else 5, nmax_unif),
-                                  bits="each leaf taxon's accession index symbolic, pairwise distinct, in [0,%d) for few leaves (quick: 2, thorough: <= 3), else in [0,%s)" % (nbits, "4" if q else "leaves+1"),
+                                  bits="each leaf taxon's accession index symbolic, pairwise distinct, in [0,%d) for two leaves, else in [0,%s)" % (nbits, "4" if q else "leaves+1"),
                                   namespace="as created / unused taxa removed / reversed / removed+sorted+extended (one shard each)",
                                   flags="rooting, suppress_unifurcations, collapse_unrooted_basal_bifurcation, suppress_storage, is_bipartitions_mutable symbolic"), cost=3.0, **common))
     pairs = [(a, b) for a in shapes_nounif for b in shapes_nounif if _leaves(a) == _leaves(b) and a <= b]
